@@ -281,6 +281,21 @@ def _stores_member(f, i, member):
             l = f.exprs[ex.skip(f, l["c"][0])]
         if l["k"] == "mem" and l["member"] == member:
             return True
+        # `*dst++ = t` / `dst[k] = t` with a local cursor that was pointed into the member
+        j = ex.skip(f, lhs)
+        e = f.exprs[j]
+        n = 0
+        while e["k"] in ("un", "idx", "cast") and e.get("c") and n < 6:
+            n += 1
+            j = ex.skip(f, e["c"][0])
+            e = f.exprs[j]
+        if e["k"] == "ref" and e.get("dk") == "local" and e.get("t", "").rstrip().endswith("*"):
+            for b2, i2 in flow.all_events(f):
+                for lhs2, var2, op2, rhs2 in flow.stores(f, i2):
+                    nm = var2["name"] if var2 is not None else (f.exprs[ex.skip(f, lhs2)].get("name")
+                                                                if lhs2 is not None and f.exprs[ex.skip(f, lhs2)]["k"] == "ref" else None)
+                    if nm == e["name"] and rhs2 is not None and any(x.endswith("." + member) for x in atoms.Operand(f, rhs2).fields):
+                        return True
     return False
 
 
